@@ -53,7 +53,10 @@ Definition hwrite (s : fs) (k : key) (pos : Z) (app : bool) (bytes : list Z) : f
         else
           let d' := mkdd k (doff d) (pos + n) in                 (* HTPupdate(ddid, -2, posn + length) *)
           let e := doff d + pos + n in
-          (mkfs (dset d' (dds s)) (Z.max (fend s) e) (poke (img s) (doff d + pos) bytes), WOk n)
+          (* a gap skipped over by seeking is written out as zeros first (the bytes there may be left over from a
+             longer version of the element that was truncated) *)
+          let img1 := poke (img s) (doff d + dlen d) (repeat 0 (Z.to_nat (pos - dlen d))) in
+          (mkfs (dset d' (dds s)) (Z.max (fend s) e) (poke img1 (doff d + pos) bytes), WOk n)
       else
         let e := doff d + pos + n in
         (mkfs (dds s) (Z.max (fend s) e) (poke (img s) (doff d + pos) bytes), WOk n)
